@@ -112,3 +112,8 @@ DOCS = {
     "family": (Family, Family(members=[Base(x=1), Derived(x=2, y="q"), Sibling(x=3, z=True)])),
     "shapes": (ShapeHolder, ShapeHolder(s=CircleV1(r=1, v1=2))),
 }
+
+# further documents for the drivers that go through the REAL text path only (harness/textpath.py); not used by the seam drivers
+REAL_DOCS = {
+    "unionboxes": (UnionBoxes, UnionBoxes(item=BoxB(inner=Child(v=1, a="q"), n=2, tag="t"), items=[BoxA(inner=Child(v=3, a="r"), label="x", tag="u"), BoxB(inner=Child(v=4, a="s"), n=5)])),
+}
